@@ -24,6 +24,10 @@ claim("C07", T, "Bounded symbolic model checking of the checked constructors: me
 claim("C08", T, "Bounded symbolic model checking: two sorting collections from two independent symbolic arrangements over the same universe; the recorded sequences of blocking raw acquisitions must order common locks identically, be increasing in address, be repeatable, and keep an owned group contiguous.", NOTE, "DESIGN.md section 3 (C08)")
 claim("C10", T, "Bounded symbolic model checking of poisoning histories against a three-valued reference model (must / may / must-not), with real unwinding; the statement's four poisoning routes, clear_poison and all observing acquisitions are covered for Poisonable<Mutex|RwLock> alone and inside boxed/ref/retrying collections.", NOTE, "DESIGN.md section 3 (C10)")
 
+claim("C02", T, "Bounded symbolic model checking of data routing and continuity: symbolic bytes written through every declared position of an exclusive guard / closure argument are read back member-wise (singly locked leaves), by a later guard, a scoped closure and a read guard; equality is decided by z3; user code is checked to run only while the leaves are held in the requested mode.", NOTE, "DESIGN.md section 3 (C02)")
+claim("C16", T, "Bounded symbolic model checking with a drop-counting payload and mirsym's heap model (double free, use after free, out-of-bounds, allocations live at path end): every constructor/destructor path of every collection kind over tuples, arrays, Vec and boxed slices; counters must be exactly 1 and symbolic payload bytes must round-trip at the declared positions.", NOTE, "DESIGN.md section 3 (C16)")
+claim("C17", T, "Bounded symbolic model checking of every non-acquiring operation (Debug of locks, collections and guards via the real Debug impls, accessors, constructors incl. duplicate check, poison flag accessors, get_mut/into_inner/into_child) under every symbolic pre-held pattern by other threads and by the calling thread itself (live guard, running closure): no blocking raw operation, no wait, owner table unchanged, no unmatched release.", NOTE, "DESIGN.md section 3 (C17)")
+
 if __name__ == "__main__":
     m = write()
     print("claimed:", [c["property_id"] for c in m["checks"]])
